@@ -308,7 +308,8 @@ def convChar (fx : Fixes) (sk : Sink) (maxlen : Nat) (fl : Flags) (width : Nat) 
     let s ← if fx.lcMemcpy then pure s else
       match sk with
       | .buffer => if s.cells.length < 2 then .error .fault else pure { s with cells := (s.cells.set 0 (Char.ofNat a.toNat)).set 1 '\x00' }
-      | _ => pure s          -- the stream sinks pass a pointer to a local object of at least two bytes (printf_s: char buffer[1] - see notes)
+      | .char => .error .fault     -- printf_s passes `char buffer[1]`: the two-byte copy overruns it
+      | .fchar => pure s           -- fprintf_s / vfprintf_s pass their 16-byte `out_fct_wrap_type` (its unused `fct` member is overwritten)
     let s ← if !fl.left then emitRep sk maxlen ' ' pad s else pure s
     let s ← emitAll sk maxlen wstr s
     let s ← if fl.left then emitRep sk maxlen ' ' pad s else pure s
@@ -340,8 +341,7 @@ def convStr (fx : Fixes) (sk : Sink) (maxlen bufsize : Nat) (fl : Flags) (width 
       -- wcstombs_s(&len, p, l + 1, lp, l)
       if l + 1 > RSIZE_MAX_WSTR then .error (.ret (-(ESLEMAX : Int)))
       else if (w.take l).any (· ≥ 128) then .error (.ret (-(EILSEQ : Int)))
-      else if l = 0 then .error (.ret ESNOSPCi)
-      else do
+      else do           -- (an empty conversion is accepted since /repo 73ef752)
         let p : Str := (w.take l).map Char.ofNat
         let s ← convStrTail sk maxlen bufsize fl width prec p l s
         pure (s, as)
